@@ -212,3 +212,136 @@ def lemmas():
     for j in range(1, (NMAX + 1) * (NMAX + 2) // 2 + 1):
         out.append(mode_lemma(j))
     return out
+
+
+# ---------------------------------------------------------------------------------------
+# C12: basis / compose / fit / remove (linear algebra abstract)
+
+MODE_SETS = [[4], [2, 3], [7, 4, 11], [1, 2, 3, 4]]
+
+
+def _zargs(ctx):
+    h, w = shape2(ctx, 'mask')
+    mask = array(ctx, 'mask', (h, w), 'bool')
+    rho = array(ctx, 'rho', (h, w), 'float')
+    theta = array(ctx, 'theta', (h, w), 'float')
+    return h, w, mask, rho, theta
+
+
+def _mode_at(ctx, mask, j, normalize, rho, theta, i, jx):
+    func = ctx.world.repo.function('lentil.zernike.zernike')
+    Z = ctx.world.interp.call_function(ctx, func, [mask, j], {'normalize': normalize, 'rho': rho, 'theta': theta})
+    return S.num(Z.at((i, jx)))
+
+
+def basis_lemma(modes):
+    def lemma(ctx):
+        """zernike_basis(mask, modes, normalize=, rho=, theta=)[k] is mode modes[k] evaluated with the caller's
+        normalisation flag and coordinates (argument binding), also vectorised."""
+        h, w, mask, rho, theta = _zargs(ctx)
+        normalize = ctx.branch(ctx.fresh_bool('normalize'))
+        func = ctx.world.repo.function('lentil.zernike.zernike_basis')
+        B = ctx.world.interp.call_function(ctx, func, [mask, PyList(list(modes))], {'normalize': normalize, 'rho': rho, 'theta': theta})
+        i, jx = ints(ctx, 'i', 'jx')
+        ctx.assume(z3.And(i >= 0, i < h, jx >= 0, jx < w))
+        for k, j in enumerate(modes):
+            ctx.oblige('C12::zernike_basis%s row %d is mode %d' % (modes, k, j),
+                       S.eq(S.num(B.at((k, i, jx))), _mode_at(ctx, mask, j, normalize, rho, theta, i, jx)))
+    return ('C12::zernike_basis%s' % modes, lemma)
+
+
+def compose_lemma(ncoef):
+    def lemma(ctx):
+        """zernike_compose(mask, coeffs, normalize, rho, theta) = sum_k coeffs[k] * mode (k+1)."""
+        h, w, mask, rho, theta = _zargs(ctx)
+        normalize = ctx.branch(ctx.fresh_bool('normalize'))
+        cs = [ctx.fresh_real('c%d' % k) for k in range(ncoef)]
+        func = ctx.world.repo.function('lentil.zernike.zernike_compose')
+        opd = ctx.world.interp.call_function(ctx, func, [mask, PyList(cs)], {'normalize': normalize, 'rho': rho, 'theta': theta})
+        i, jx = ints(ctx, 'i', 'jx')
+        ctx.assume(z3.And(i >= 0, i < h, jx >= 0, jx < w))
+        want = 0
+        for k, c_ in enumerate(cs):
+            want = S.add(want, S.mul(c_, _mode_at(ctx, mask, k + 1, normalize, rho, theta, i, jx)))
+        ctx.oblige('C12::zernike_compose[%d coefficients]' % ncoef, S.eq(S.num(opd.at((i, jx))), want))
+    return ('C12::zernike_compose[%d]' % ncoef, lemma)
+
+
+def fit_lemma(modes):
+    def lemma(ctx):
+        """zernike_fit builds the vectorised basis of exactly the requested modes with the caller's flag and
+        coordinates, pseudo-inverts it and projects the flattened OPD: c_k = sum_p pinv(B)[p, k] opd_flat[p]."""
+        h, w, mask, rho, theta = _zargs(ctx)
+        opd = array(ctx, 'opd', (h, w), 'float')
+        normalize = ctx.branch(ctx.fresh_bool('normalize'))
+        func = ctx.world.repo.function('lentil.zernike.zernike_fit')
+        ctx.no_model = {'lentil.zernike.zernike_fit'}
+        c_ = ctx.world.interp.call_function(ctx, func, [opd, mask, PyList(list(modes))], {'normalize': normalize, 'rho': rho, 'theta': theta})
+        calls = ctx.__dict__.get('ghost_pinv_calls', [])
+        ctx.oblige('C12::zernike_fit%s one pseudo-inverse' % modes, len(calls) == 1)
+        if len(calls) != 1:
+            return
+        Bm, P = calls[0]['input'], calls[0]['out']
+        i, jx = ints(ctx, 'i', 'jx')
+        ctx.assume(z3.And(i >= 0, i < h, jx >= 0, jx < w))
+        flat = S.add(S.mul(i, w), jx)
+        ctx.oblige('C12::zernike_fit%s basis shape' % modes, z3.And(z3.BoolVal(Bm.shape[0] == len(modes)), S.z(S.eq(Bm.shape[1], S.mul(h, w)))))
+        for k, j in enumerate(modes):
+            ctx.oblige('C12::zernike_fit%s basis row %d is mode %d at the given coordinates' % (modes, k, j),
+                       S.eq(S.num(Bm.at((k, flat))), _mode_at(ctx, mask, j, normalize, rho, theta, i, jx)))
+        from lvc.prove import oblige_equal
+        for k in range(len(modes)):
+            want = S.sigma(0, S.mul(h, w), lambda p, k=k: S.mul(P.at((p, k)), opd.at((S.floordiv(p, w), S.mod(p, w)))))
+            oblige_equal(ctx, 'C12::zernike_fit%s coefficient %d is the projection' % (modes, k), c_.at((k,)), want)
+    return ('C12::zernike_fit%s' % modes, lemma)
+
+
+def fit_call_model(ctx, env):
+    modes = env['modes']
+    n = len(ctx.world.interp.iterate(ctx, modes)) if not S.is_scalar(modes) else 1
+    out = A.fresh_array(ctx, 'fit_coeffs', (n,), 'float')
+    ctx.__dict__.setdefault('ghost_fit_calls', []).append(dict(env, out=out))
+    ctx.assumptions.add('contract:lentil.zernike.zernike_fit (coefficients abstract at this call site)')
+    return out
+
+
+cf = contract('lentil.zernike.zernike_fit')
+cf.call_model = fit_call_model
+
+
+def remove_lemma(modes):
+    def lemma(ctx):
+        """zernike_remove(opd, mask, modes, rho, theta) = opd - sum_k c_k * mode modes[k](rho, theta), where c is
+        zernike_fit called with the SAME opd, mask, modes and the caller's coordinates (argument binding)."""
+        h, w, mask, rho, theta = _zargs(ctx)
+        opd = array(ctx, 'opd', (h, w), 'float')
+        func = ctx.world.repo.function('lentil.zernike.zernike_remove')
+        mlist = PyList(list(modes))
+        res = ctx.world.interp.call_function(ctx, func, [opd, mask, mlist], {'rho': rho, 'theta': theta})
+        calls = ctx.__dict__.get('ghost_fit_calls', [])
+        ctx.oblige('C12::zernike_remove%s fits once' % modes, len(calls) == 1)
+        if len(calls) != 1:
+            return
+        k0 = calls[0]
+        same = lambda a, b: isinstance(a, Arr) and isinstance(b, Arr) and a.cell is b.cell
+        ctx.oblige('C12::zernike_remove%s fit is called with the given opd, mask, modes, rho, theta' % modes,
+                   same(k0['opd'], opd) and same(k0['mask'], mask) and k0['modes'] is mlist
+                   and same(k0.get('rho'), rho) and same(k0.get('theta'), theta) and k0.get('normalize', True) is True,
+                   info={'normalize': str(k0.get('normalize')), 'rho_is_rho': same(k0.get('rho'), rho)})
+        c_ = k0['out']
+        i, jx = ints(ctx, 'i', 'jx')
+        ctx.assume(z3.And(i >= 0, i < h, jx >= 0, jx < w))
+        want = opd.at((i, jx))
+        for k, j in enumerate(modes):
+            want = S.sub(want, S.mul(c_.at((k,)), _mode_at(ctx, mask, j, True, rho, theta, i, jx)))
+        ctx.oblige('C12::zernike_remove%s residual = opd - fitted component in the requested modes' % modes,
+                   S.eq(S.num(res.at((i, jx))), want))
+    return ('C12::zernike_remove%s' % modes, lemma)
+
+
+def c12_lemmas():
+    out = []
+    for ms in MODE_SETS:
+        out += [basis_lemma(ms), fit_lemma(ms), remove_lemma(ms)]
+    out += [compose_lemma(3), compose_lemma(5)]
+    return out
